@@ -48,6 +48,7 @@ func (eng *Engine) newFnCtx(pkg *packages.Package, cs *ContractSet, name string,
 		arith = cs.Arith
 	}
 	fc.bv = arith != "int"
+	fc.mixed = arith == "mixed"
 	return fc
 }
 
@@ -200,6 +201,7 @@ func (eng *Engine) VerifyFunc(pkg *packages.Package, decl *ast.FuncDecl, c *Cont
 			fc.frame = append(fc.frame, fc.regionsOf(m, menv)...)
 		}
 	}
+	fc.autoLemmas(st)
 	work := st.clone()
 	out := fc.execBlock(decl.Body.List, work)
 	fc.flushPanics(out)
@@ -323,7 +325,16 @@ func (fc *FnCtx) finishExit(st *State, panicking bool, ord int, scopePos token.P
 		if label == "" {
 			label = fmt.Sprint(i + 1)
 		}
-		fc.assertNamed(ns, env.evalBool(e.E), "post", label, "postcondition: "+e.Text, fc.decl.Pos())
+		parts := splitConj(e.E)
+		fc.curNeeds, fc.curStrict = e.Needs, e.Strict
+		for j, part := range parts {
+			l := label
+			if len(parts) > 1 {
+				l = fmt.Sprintf("%s.%d", label, j+1)
+			}
+			fc.assertNamed(ns, env.evalBool(part), "post", l, "postcondition: "+part.String(), fc.decl.Pos())
+		}
+		fc.curNeeds, fc.curStrict = nil, false
 	}
 	fc.checkLocksReleased(ns, scopePos)
 }
@@ -378,6 +389,8 @@ func (fc *FnCtx) useLemma(st *State, u *Clause, scopePos token.Pos) {
 		fc.fail(token.NoPos, "use: unknown lemma %s", e.Fun.Name)
 	}
 	fc.lemmasUsed[lm.Name] = true
+	fc.curOnly = u.Only
+	defer func() { fc.curOnly = "" }()
 	env := fc.newSpecEnv(st, fc.entry, scopePos)
 	if len(e.Args) != len(lm.Params) {
 		fc.fail(token.NoPos, "use %s: wrong number of arguments", lm.Name)
@@ -404,6 +417,7 @@ func (fc *FnCtx) useLemma(st *State, u *Clause, scopePos token.Pos) {
 // ProveLemma: obligations for one lemma (requires ==> ensures for arbitrary parameters).
 func (eng *Engine) ProveLemma(pkg *packages.Package, cs *ContractSet, lm *Lemma) (res *FuncResult) {
 	fc := eng.newFnCtx(pkg, cs, "lemma/"+lm.Name, "")
+	fc.reveal = lm.Reveal
 	res = &FuncResult{Name: fc.name}
 	defer func() {
 		res.Obls = fc.obls
@@ -492,4 +506,66 @@ func (fc *FnCtx) useLemmaEnv(st *State, u *Clause, env *SpecEnv) {
 		post = append(post, inst.evalBool(r.E))
 	}
 	fc.assume(st, implies(and(pre...), and(post...)))
+}
+
+// autoLemmas: lemmas marked `auto` (each proved as its own obligation) are assumed as quantified
+// axioms, emitted only into queries that mention the lemma's key function.
+func (fc *FnCtx) autoLemmas(st *State) {
+	for _, cs := range []*ContractSet{fc.cs, fc.eng.externs} {
+		for _, ln := range cs.LemmaOrd {
+			lm := cs.Lemmas[ln]
+			if lm.Auto == "" {
+				continue
+			}
+			homePkg := fc.eng.pkgOfContractSet(cs)
+			if homePkg == nil {
+				homePkg = fc.pkg.Types
+			}
+			env := &SpecEnv{fc: fc, cur: st, old: st, bound: map[string]Val{}, home: cs, homePkg: homePkg}
+			var binders []string
+			for _, p := range lm.Params {
+				t := fc.resolveType(p.Type, homePkg)
+				fc.nfresh++
+				n := sym(fmt.Sprintf("%s?%d", p.Name, fc.nfresh))
+				env.bound[p.Name] = Val{T: n, Ty: t}
+				binders = append(binders, fmt.Sprintf("(%s %s)", n, fc.sortOf(t)))
+			}
+			fc.noDefine++
+			var pre, post []string
+			for _, r := range lm.Requires {
+				pre = append(pre, env.evalBool(r.E))
+			}
+			for _, r := range lm.Ensures {
+				post = append(post, env.evalBool(r.E))
+			}
+			pat := ""
+			key := ""
+			if lm.Auto != "-" {
+				var ts []string
+				for _, p := range splitTop(lm.Auto) {
+					e, err := ParseSpec(p)
+					if err != nil {
+						fc.fail(token.NoPos, "auto trigger: %v", err)
+					}
+					t := env.eval(e).T
+					ts = append(ts, t)
+					if key == "" && strings.HasPrefix(t, "(") {
+						key = strings.Fields(t[1:])[0]
+					}
+				}
+				pat = " :pattern (" + strings.Join(ts, " ") + ")"
+			}
+			fc.noDefine--
+			body := implies(and(pre...), and(post...))
+			ax := fmt.Sprintf("(assert (forall (%s) (! %s%s)))", strings.Join(binders, " "), body, pat)
+			if len(binders) == 0 {
+				ax = fmt.Sprintf("(assert %s)", body)
+			}
+			if key == "" {
+				key = "spec$"
+			}
+			fc.lemmasUsed[lm.Name+" (auto)"] = true
+			fc.addAxiom(key, ax)
+		}
+	}
 }
